@@ -18,6 +18,7 @@ from __future__ import annotations
 import math
 
 import numpy as np
+from hypothesis import strategies as st
 
 from vlib.core import Discard
 from vlib.core import Property
@@ -253,14 +254,46 @@ def call_matrix(case, normalize, clause, irf_override=None):
     dm, mc = fill(model, params)
     g = np.asarray(case["global_axis"], dtype=float)
     t = np.asarray(case["times"], dtype=float)
+    # the representation in which the axes are handed over (the oracle works per point: rows are put back in case order)
+    rep = case.get("axis_repr") or {}
+    if rep.get("global_int") and all(float(v).is_integer() for v in g):
+        g = g.astype(np.int64)
+    perm = np.arange(t.size)
+    if rep.get("time_order") == "descending":
+        perm = perm[::-1]
+    elif rep.get("time_order") == "shuffled":
+        perm = np.random.default_rng([rep.get("seed", 0), t.size]).permutation(t.size)
     with expect_ok(clause):
-        labels, mat = mc.calculate_matrix(dm, g, t)
-    return dm, mc, list(labels), np.asarray(mat)
+        labels, mat = mc.calculate_matrix(dm, g, t[perm].copy())
+    mat = np.asarray(mat)
+    if mat.ndim >= 2 and mat.shape[-2] == t.size:
+        back = np.empty_like(mat)
+        back[..., perm, :] = mat
+        mat = back
+    return dm, mc, list(labels), mat
+
+
+AXIS_REPRS = st.fixed_dictionaries({"global_int": st.booleans(), "time_order": st.sampled_from(["ascending", "ascending", "descending", "shuffled"]),
+                                    "seed": st.integers(0, 10**6)})
+
+
+def with_axis_repr(strategy):
+    return st.tuples(strategy(), AXIS_REPRS).map(lambda t: {**t[0], "axis_repr": t[1]})
+
+
+def repr_tags(case):
+    rep = case.get("axis_repr") or {}
+    out = set()
+    if rep.get("global_int") and all(float(v).is_integer() for v in case["global_axis"]):
+        out.add("integer_global_axis")
+    if rep.get("time_order", "ascending") != "ascending":
+        out.add(f"time_axis_{rep['time_order']}")
+    return out
 
 
 def common_tags(case):
     irf = case["irf"]
-    return {
+    return repr_tags(case) | {
         case["mc"]["type"], irf["type"], f"gaussians_{max(len(irf['center']), len(irf['width']))}", f"pattern_{case.get('pattern')}",
         "scaled" if irf.get("scale") is not None else "unscaled", f"axis_{case.get('axis_family')}",
     }
@@ -562,9 +595,9 @@ PROPERTY = Property(
         "distinct = distinct case digest."
     ),
     subs=[
-        Sub("kernel", prop=prop_kernel, strategy=gen.kernel_cases, budget={"quick": 700, "thorough": 70000},
+        Sub("kernel", prop=prop_kernel, strategy=lambda: with_axis_repr(gen.kernel_cases), budget={"quick": 700, "thorough": 70000},
             doc="index-independent (multi-)Gaussian IRF: calculate_matrix == mpmath convolution @ A, normalise on/off"),
-        Sub("index", prop=prop_index, strategy=gen.index_cases, budget={"quick": 600, "thorough": 60000},
+        Sub("index", prop=prop_index, strategy=lambda: with_axis_repr(gen.index_cases), budget={"quick": 600, "thorough": 60000},
             doc="shifted/dispersed IRF: matrix[i] == oracle at the effective centre/width of index i == plain-Gaussian twin"),
         Sub("result", prop=prop_result, strategy=gen.result_cases, budget={"quick": 160, "thorough": 16000},
             doc="result variables matrix / irf / irf_center_location / irf_shift of a one-evaluation optimize()"),
